@@ -105,7 +105,18 @@ ElemFails(e) ==
   ELSE IF e.index.n < 0 \/ e.index.n >= e.len THEN F(e.outcome = "error", "an index out of range did not yield an error")
   ELSE F(e.outcome = "value" /\ e.hit = e.index.n, "indexing does not return the element at that position")
 
-Fails(e) == CASE e.op = "bin" -> BinFails(e) [] e.op = "un" -> UnFails(e) [] e.op = "cmp" -> CmpFails(e)
+\* an earlier result scribbled over by its caller must not show through a later call
+AliasFails(e) ==
+  IF e.o1 = "panic" \/ e.o2 = "panic" THEN "an operator crashed; "
+  ELSE IF ~e.scribbled THEN ""
+  ELSE F(e.o2 = e.o1 /\ e.r2.t = e.r1.t /\ e.r2.s = e.r1.s, "an operator hands out a shared result: what a caller does to one result changes later results")
+PowDoubleFails(e) ==
+  IF e.o1 = "skip" THEN ""
+  ELSE IF e.o1 = "panic" \/ e.o2 = "panic" THEN "an operator crashed; "
+  ELSE IF e.o1 # "value" \/ e.o2 # "value" THEN ""
+  ELSE F(e.r1.s = e.r2.s \/ (e.r1.k # "none" /\ e.r2.k # "none" /\ Num8(e.r1) = Num8(e.r2)), "'^' on integer operands differs from exponentiation of the same numbers")
+
+Fails(e) == CASE e.op = "alias" -> AliasFails(e) [] e.op = "powdouble" -> PowDoubleFails(e) [] e.op = "bin" -> BinFails(e) [] e.op = "un" -> UnFails(e) [] e.op = "cmp" -> CmpFails(e)
               [] e.op = "law" -> LawFails(e) [] e.op = "in" -> InFails(e) [] e.op = "elem" -> ElemFails(e) [] OTHER -> ""
 Init == l = 1
 Next ==
